@@ -16,12 +16,26 @@ EXPLANATION = ("Each simulator is run twice on the same symbolic path: first wit
                "SYMBOLIC query time q >= tmin return the status of the latest change at or before q (including q equal to a "
                "change time).")
 BOUNDS = {'quick': 'graphs K2, P3 (K3 for SIR Gillespie/event-driven); initial conditions up to automorphism; <=3 events (SIS-type), <=3 steps (discrete); one symbolic query time per path',
-          'thorough': 'adds K3, P4, S3 for all; <=4 events'}
+          'thorough': 'adds K3 (all initial conditions), P4, S3 (one initial node, <= 1 recovered) for all; <=4 events'}
 ASSUMPTIONS = ['floats as reals', 'ties between event times allowed (solver forks); delays and durations > 0 in user rules',
                'discrete-time simulators under a deterministic rule (engine-chosen contact digraph), as the property states']
 OPTS = {'quick': {'max_validate': 2, 'validate_every': 23, 'cfg_timeout': 240}, 'thorough': {'max_validate': 2, 'validate_every': 101, 'cfg_timeout': 1500}}
 MUST_EVALUATE = {'quick': ['same-draws-both-modes', 'summary=arrays', 'accessors=summary', 'history-starts-at-tmin', 'history-time-ordered',
                            'history-legal-moves', 'status-at-query-time', 'subset-summary']}
+
+
+def ref_first(sim, n):
+    """status of n at the first time of the simulation: its latest entry at that time (ties at tmin allowed)"""
+    T, S = list(sim.node_history(n)[0]), list(sim.node_history(n)[1])
+    last = S[0]
+    for a, b in zip(T[1:], S[1:]):
+        if symx.ENG.mode == 'sym':
+            same = symx.ENG.prove(EQ(a, T[0]))[0]
+        else:
+            same = bool(EQ(a, T[0]))
+        if same:
+            last = b
+    return last
 
 
 def functions():
@@ -45,6 +59,8 @@ def configs(tier):
                     continue
                 if tier == 'quick' and g == 'K3' and len(I0) > 1:
                     continue
+                if tier == 'thorough' and graphs.ALL[g][0] == 4 and (len(I0) > 1 or len(R0) > 1):
+                    continue      # 4-node graphs: single initial node, at most one recovered node (sized to about an hour)
                 if tier == 'quick' and entry == 'fast_nonMarkov_SIS' and g == 'P3' and I0 != [0]:
                     continue
                 c = dict(entry=entry, graph=g, I0=I0, R0=R0, full=False, tags=[g] + (['R0'] if R0 else []))
@@ -177,6 +193,16 @@ def run_path(h, cfg):
             hist = (list(sim.node_history(n)[0]), list(sim.node_history(n)[1]))
             for c, s in ref_status(hist, q):
                 h.require('status-at-query-time', IMPL(c, s == gs[n]), {'node': str(n), 'got': gs[n], 'via': 'get_statuses'})
+    # documented defaults: no time = the first time; a node subset
+    st, g0 = h.call(sim.get_statuses, r.nodes[:2])
+    if st == 'exc':
+        h.fail('status-at-query-time:' + type(g0).__name__, {'exception': repr(g0)[:200], 'call': 'get_statuses(nodelist) without a time'})
+    else:
+        want0 = {n: ref_first(sim, n) for n in r.nodes[:2]}
+        if dict(g0) == want0:
+            h.require('status-at-default-time', True)
+        else:
+            h.fail('status-at-default-time', {'got': {str(k): v for k, v in dict(g0).items()}, 'want': {str(k): v for k, v in want0.items()}})
     # summary over a node subset
     sub = r.nodes[:max(1, len(r.nodes) - 1)]
     st, ss = h.call(sim.summary, sub)
